@@ -24,7 +24,11 @@ let () = run (fun case impl ->
       (* "! <bias>": operands were written as value + bias (values the operand types cannot hold);
          when at least one operand was biased the statement has no encoding *)
       let nbiased = (try int_of_string (field impl "biased=") with _ -> 0) in
-      let expected = if Stdlib.List.mem "!" toks && nbiased > 0 then None else StmtSpec.expected_bytes i addr_n tgt in
+      (* "# <n>": the statement was written with one operand too many / too few: every mnemonic has exactly one
+         operand count, so there is no encoding *)
+      let wrong_arity = Stdlib.List.mem "#" toks in
+      if wrong_arity then count "A.wrong_operand_count";
+      let expected = if wrong_arity || (Stdlib.List.mem "!" toks && nbiased > 0) then None else StmtSpec.expected_bytes i addr_n tgt in
       if Stdlib.List.mem "!" toks then count ("A.biased." ^ (if nbiased > 0 then "operand" else "none"));
       (match expected with
        | Some bytes ->
